@@ -118,19 +118,19 @@ func writeHeaders(fn *ssa.Function) []whSite {
 }
 
 func init() {
-	register(&Rule{ID: "TS-REFUSE", Floor: 60,
+	register(&Rule{ID: "TS-REFUSE", Floor: 40,
 		Doc: "once a handler has written a status header — any status — no mutating store call (BlobCreate, IndexInsert, IndexRemove, BlobDelete, session Write/Close/ChangeAlgorithm, or a helper containing one; Cancel excepted) is reachable, and after a status ≥ 400 no second status is written; helpers that write the response return nil afterwards and their callers stop",
 		Run: runRefuse})
 	register(&Rule{ID: "TS-ACK", Floor: 20,
 		Doc: "no acknowledgement (2xx status, or `return nil` in a helper) is reachable on a path on which the error of a commit call (BlobCreate other than ‘already exists’, session Write/io.Copy, Verify, Close, Cancel, IndexInsert, IndexRemove, BlobDelete, helper containing one) is non-nil, untested or discarded; the abstract value of that error (nil / exists / other) is tracked along every path",
 		Run: runAck})
-	register(&Rule{ID: "TS-VERIFY", Floor: 8,
+	register(&Rule{ID: "TS-VERIFY", Floor: 5,
 		Doc: "every commit (Close) of an upload session outside the stores is either dominated by the ok-edge of Verify on the same session against a digest obtained from digest.Parse, or the session was created in the same function with a BlobWithDigest option (the store then compares the digest itself)",
 		Run: runVerify})
-	register(&Rule{ID: "TS-CANCEL", Floor: 4,
+	register(&Rule{ID: "TS-CANCEL", Floor: 2,
 		Doc: "(a) on the failure edge of Verify the session is cancelled before the handler answers or returns; (b) every exit of each store's commit method (Close of the upload type), failing or not, has unregistered the session from the session cache",
 		Run: runCancel})
-	register(&Rule{ID: "TS-RANGE", Floor: 3,
+	register(&Rule{ID: "TS-RANGE", Floor: 2,
 		Doc: "every write into an existing session (obtained through BlobSession) is dominated by the accepting edge of the Content-Range check against Size() and by the equality edge of the decoded state offset against Size(); the range checker returns true only for an empty header or on the equality edge of the parsed start against its size parameter",
 		Run: runRange})
 	register(&Rule{ID: "TS-ROGUARD", Floor: 6,
@@ -536,11 +536,56 @@ func runCancel(c *core.Ctx) {
 		}
 		bad := ""
 		nret := 0
+		// unregisters: the cache removal itself, or a closure / method of the upload type that performs it on all its paths
+		var always func(f *ssa.Function, d int) bool
+		always = func(f *ssa.Function, d int) bool {
+			if f == nil || d > 2 || len(f.Blocks) == 0 {
+				return false
+			}
+			ok := true
+			n := 0
+			an.Paths(an.PathSpec[bool]{Fn: f, Init: false,
+				Instr: func(s bool, in ssa.Instruction) []bool {
+					switch x := in.(type) {
+					case *ssa.Call:
+						if an.IsMethod(x, r.CachePath, "Cache", "Delete") {
+							return []bool{true}
+						}
+					case *ssa.Return:
+						n++
+						if !s {
+							ok = false
+						}
+					}
+					return []bool{s}
+				}})
+			return ok && n > 0
+		}
+		unregisters := func(x *ssa.Call) bool {
+			if an.IsMethod(x, r.CachePath, "Cache", "Delete") {
+				return true
+			}
+			if mc, ok := x.Call.Value.(*ssa.MakeClosure); ok {
+				cf, _ := mc.Fn.(*ssa.Function)
+				return always(cf, 1)
+			}
+			// a closure held in a local variable
+			if ld := an.Origin(x.Call.Value); ld != nil {
+				if mc, ok := ld.(*ssa.MakeClosure); ok {
+					cf, _ := mc.Fn.(*ssa.Function)
+					return always(cf, 1)
+				}
+			}
+			if sc := x.Call.StaticCallee(); sc != nil && sc != fn && sc.Signature.Recv() != nil && an.NamedOf(an.Deref(sc.Signature.Recv().Type())) == fam.Upload {
+				return always(sc, 1)
+			}
+			return false
+		}
 		an.Paths(an.PathSpec[bool]{Fn: fn, Init: false,
 			Instr: func(s bool, in ssa.Instruction) []bool {
 				switch x := in.(type) {
 				case *ssa.Call:
-					if an.IsMethod(x, r.CachePath, "Cache", "Delete") {
+					if unregisters(x) {
 						return []bool{true}
 					}
 				case *ssa.Return:
@@ -643,6 +688,51 @@ func runRange(c *core.Ctx) {
 						for _, pair := range [][2]ssa.Value{{x, y}, {y, x}} {
 							if isSizeOf(r, pair[1], sess) && decodedField(pair[0]) {
 								stateOK = true
+							}
+						}
+					}
+				}
+				// the checks may have been made by a helper whose verdict this edge tests: the branch edges inside the helper
+				// that its accepting result implies, with the helper's parameters standing for the handler's arguments
+				for _, fe := range an.ImpliedHelperEdges(g) {
+					sizeOfSess := func(v ssa.Value) bool {
+						call, _ := an.CallOf(an.Strip(v))
+						if call == nil || !r.IsAPI(call, "BlobCreator", "Size") {
+							return false
+						}
+						arg, _ := fe.ArgOf(call.Call.Value)
+						return an.Origin(arg) == sess
+					}
+					if x, y, op, ok := an.CmpTest(fe.If()); ok {
+						eqSucc := -1
+						switch op {
+						case token.EQL:
+							eqSucc = 0
+						case token.NEQ:
+							eqSucc = 1
+						}
+						if eqSucc == fe.Succ {
+							for _, pair := range [][2]ssa.Value{{x, y}, {y, x}} {
+								if sizeOfSess(pair[1]) && decodedField(pair[0]) {
+									stateOK = true
+								}
+							}
+						}
+					}
+					if bc, trueSucc, ok := an.BoolCallTest(fe.If()); ok && fe.Succ == trueSucc {
+						hasHdr, hasSize := false, false
+						for _, a := range bc.Call.Args {
+							if headerGet(a, "content-range") {
+								hasHdr = true
+							}
+							if sizeOfSess(a) {
+								hasSize = true
+							}
+						}
+						if hasHdr && hasSize {
+							rangeOK = true
+							if callee := bc.Call.StaticCallee(); callee != nil {
+								checkers[callee] = true
 							}
 						}
 					}
@@ -757,28 +847,75 @@ func runRange(c *core.Ctx) {
 
 // decodedField: v is a field of a local struct that was filled by json.Unmarshal / a json Decoder.
 func decodedField(v ssa.Value) bool {
-	u, ok := an.Strip(v).(*ssa.UnOp)
-	if !ok || u.Op != token.MUL {
+	return decodedFieldDepth(v, 0)
+}
+
+// decodedFieldDepth: v is a field of a struct value that was filled by a JSON decode — in this function, or in a
+// helper whose result the struct is (the helper's returned struct is the one it decoded into).
+func decodedFieldDepth(v ssa.Value, depth int) bool {
+	if depth > 2 {
 		return false
 	}
-	fa, ok := u.X.(*ssa.FieldAddr)
-	if !ok {
+	var structV ssa.Value
+	switch x := an.Strip(v).(type) {
+	case *ssa.UnOp:
+		if x.Op != token.MUL {
+			return false
+		}
+		fa, ok := x.X.(*ssa.FieldAddr)
+		if !ok {
+			return false
+		}
+		structV = fa.X
+	case *ssa.Field:
+		structV = x.X
+	default:
 		return false
 	}
-	al, ok := fa.X.(*ssa.Alloc)
-	if !ok || al.Referrers() == nil {
-		return false
-	}
-	for _, ref := range *al.Referrers() {
-		if mi, ok := ref.(*ssa.MakeInterface); ok && mi.Referrers() != nil {
-			for _, rr := range *mi.Referrers() {
-				if call, ok := rr.(*ssa.Call); ok && (an.IsFunc(call, "encoding/json", "Unmarshal") || an.IsMethod(call, "encoding/json", "Decoder", "Decode")) {
-					return true
+	decodedInto := func(al *ssa.Alloc) bool {
+		if al.Referrers() == nil {
+			return false
+		}
+		for _, ref := range *al.Referrers() {
+			if mi, ok := ref.(*ssa.MakeInterface); ok && mi.Referrers() != nil {
+				for _, rr := range *mi.Referrers() {
+					if call, ok := rr.(*ssa.Call); ok && (an.IsFunc(call, "encoding/json", "Unmarshal") || an.IsMethod(call, "encoding/json", "Decoder", "Decode")) {
+						return true
+					}
 				}
 			}
 		}
+		return false
 	}
-	return false
+	if al, ok := structV.(*ssa.Alloc); ok {
+		if decodedInto(al) {
+			return true
+		}
+		// a local that holds the struct a helper returned
+		if sv := an.SingleStore(al); sv != nil {
+			structV = sv
+		} else {
+			return false
+		}
+	}
+	// the struct is the result of a helper: every non-error return returns a struct it decoded into
+	hr := an.HelperReturns(structV, nil)
+	if len(hr) == 0 {
+		return false
+	}
+	for _, x := range hr {
+		ok := false
+		val := an.Strip(x.Val)
+		if ld, isLoad := val.(*ssa.UnOp); isLoad && ld.Op == token.MUL {
+			if al, isAl := ld.X.(*ssa.Alloc); isAl && decodedInto(al) {
+				ok = true
+			}
+		}
+		if !ok {
+			return false
+		}
+	}
+	return true
 }
 
 // ---- TS-ROGUARD / TB-ROUTE ----
@@ -1114,6 +1251,25 @@ func handlerTags(c *core.Ctx, r *Roles, fn *ssa.Function) []string {
 	for _, h := range referrerHelpers(c) {
 		if h == top {
 			tags = append(tags, "referrer")
+			continue
+		}
+		// the step of a referrers update that stores the response, split out of the helper
+		isCallee := false
+		an.Calls(h, func(call ssa.CallInstruction) {
+			if call.Common().StaticCallee() == top {
+				isCallee = true
+			}
+		})
+		if isCallee && top.Parent() == nil && reachesAPI(c, r, top, "Repo", "IndexInsert", 0, map[*ssa.Function]bool{}) {
+			dup := false
+			for _, t := range tags {
+				if t == "referrer" {
+					dup = true
+				}
+			}
+			if !dup {
+				tags = append(tags, "referrer")
+			}
 		}
 	}
 	session, del := false, false
@@ -1269,7 +1425,7 @@ func fieldOfConfig(c *core.Ctx, v ssa.Value) bool {
 }
 
 func init() {
-	register(&Rule{ID: "SH-RANGE-HDR", Floor: 7,
+	register(&Rule{ID: "SH-RANGE-HDR", Floor: 4,
 		Doc: "every Range header an upload handler writes reports the bytes received: its value is formatted from the session's Size() minus one (end offsets are inclusive), at every site alike (sibling agreement of the status, chunk and refusal answers)",
 		Run: func(c *core.Ctx) {
 			r := requireRoles(c)
@@ -1360,6 +1516,40 @@ func init() {
 					}
 					k++
 					okey := fmt.Sprintf("state:%s#%d", kn(c.P.FuncName(fn)), k)
+					// the struct is a parameter of an encoding helper: what every caller passes
+					if p, isParam := an.Origin(mi.X).(*ssa.Parameter); isParam && p.Parent() == fn {
+						pi := -1
+						for i, q := range fn.Params {
+							if q == p {
+								pi = i
+							}
+						}
+						sites := c.P.Callers(fn)
+						good := len(sites) > 0 && pi >= 0
+						for _, site := range sites {
+							cc := site.Common()
+							if cc.StaticCallee() != fn || pi >= len(cc.Args) {
+								good = false
+								break
+							}
+							vals := structStores(an.Strip(cc.Args[pi]))["Offset"]
+							if len(vals) != 1 {
+								good = false
+								break
+							}
+							for _, v := range vals {
+								if z, isC := an.ConstInt(v); isC && z == 0 {
+									continue
+								}
+								if sz, _ := an.CallOf(an.Origin(v)); sz != nil && r.IsAPI(sz, "BlobCreator", "Size") && !staleAt(site.Parent(), site, sz) {
+									continue
+								}
+								good = false
+							}
+						}
+						c.Check(good, okey, call.Pos(), "the state token marshalled at %s (in a helper) carries, at every call site, Offset = the session's Size() (or 0 for a new session): %v — the next chunk is checked against that number", c.P.Pos(call.Pos()), good)
+						return
+					}
 					vals := structStores(an.Strip(mi.X))["Offset"]
 					good := len(vals) == 1
 					for _, v := range vals {
